@@ -21,6 +21,7 @@ struct World<S: Service> {
     loans: HashMap<(usize, usize), SampleMutUninit<S, MaybeUninit<u64>, ()>>,
     samples: HashMap<usize, Vec<(Sample<S, u64, ()>, u64)>>,
     pub_ids: HashMap<u128, usize>,
+    max_borrow: usize,
     pub_labels: std::collections::HashSet<usize>,
     sub_labels: std::collections::HashSet<usize>,
 }
@@ -61,7 +62,7 @@ fn mk<S: Service>(t: &[&str]) -> Result<World<S>, String> {
         .enable_safe_overflow(n(t[7]) == 1)
         .create()
         .map_err(|e| format!("err:service:{e:?}"))?;
-    Ok(World { node, service, pubs: HashMap::new(), subs: HashMap::new(), loans: HashMap::new(), samples: HashMap::new(), pub_ids: HashMap::new(), pub_labels: Default::default(), sub_labels: Default::default() })
+    Ok(World { node, service, pubs: HashMap::new(), subs: HashMap::new(), loans: HashMap::new(), samples: HashMap::new(), pub_ids: HashMap::new(), max_borrow: n(t[6]).max(1), pub_labels: Default::default(), sub_labels: Default::default() })
 }
 
 fn exec<S: Service>(w: &mut World<S>, t: &[&str]) -> String {
@@ -147,6 +148,12 @@ fn exec<S: Service>(w: &mut World<S>, t: &[&str]) -> String {
         _ => panic!("bad op"),
     };
     // canary: everything a subscriber still holds must be unchanged
+    // the documented borrow limit is per subscriber
+    for (sl, v) in w.samples.iter() {
+        if w.subs.contains_key(sl) && v.len() > w.max_borrow {
+            oracle_fail("subscriber holds more samples than max borrowed samples".to_string());
+        }
+    }
     for (sl, v) in w.samples.iter() {
         for (s, tag) in v {
             if *s.payload() != *tag {
